@@ -248,8 +248,9 @@ Definition wit_native (w : option swit) : list sid :=
 Definition wit_plutus (tag item : N) (w : option swit) : list ptagged :=
   match w with Some (SWPlutus p) => [{| pt_tag := tag; pt_item := item; pt_wit := p |}] | _ => [] end.
 
-Definition certs_required_signers (st : list cert_op) : list key :=
-  set_of (flat_map (fun e => witness_keys_for_cert (fst e) ++ wit_signers (snd e)) st).
+Definition certs_required_signers_gen (fixed : bool) (st : list cert_op) : list key :=
+  set_of (flat_map (fun e => witness_keys_for_cert_gen fixed (fst e) ++ wit_signers (snd e)) st).
+Definition certs_required_signers := certs_required_signers_gen genesis_witness_fixed.
 Fixpoint enum_from {A} (i : N) (l : list A) : list (N * A) :=
   match l with [] => [] | x :: t => (i, x) :: enum_from (i + 1) t end.
 Definition certs_plutus (st : list cert_op) : list ptagged :=
@@ -300,8 +301,10 @@ Definition votes_plutus (st : list vote_op) : list ptagged :=
 Record prop_op : Type := { p_id : N; p_scripted : bool (* has_script_hash *); p_wit : option pwit }.
 Definition prop_accepts (op : prop_op) : bool :=
   match p_wit op with None => negb (p_scripted op) | Some _ => true end.
+(* the proposal is the map key: its identity is (p_id, p_scripted) *)
+Definition prop_key (op : prop_op) : N := 2 * p_id op + (if p_scripted op then 1 else 0).
 Definition props_run (ops : list prop_op) : list (N * option swit) :=
-  last_wins N.eqb (map (fun op => (p_id op, option_map SWPlutus (p_wit op))) (filter prop_accepts ops)).
+  last_wins N.eqb (map (fun op => (prop_key op, option_map SWPlutus (p_wit op))) (filter prop_accepts ops)).
 Definition props_plutus (st : list (N * option swit)) : list ptagged :=
   flat_map (fun e => wit_plutus TAG_PROPOSE (fst e) (snd e)) st.
 Definition props_required_signers_gen (fixed : bool) (st : list (N * option swit)) : list key :=
@@ -365,15 +368,18 @@ Record tx_ops : Type := {
   t_dedup_explicit_refs : bool      (* config.deduplicate_explicit_ref_inputs_with_regular_inputs *)
 }.
 
-(* the union computed by count_needed_vkeys, in its order *)
-Definition needed_vkeys (t : tx_ops) : list key :=
+(* the union computed by count_needed_vkeys, in its order; the four booleans select original (false) or
+   repaired (true) behaviour of the vote, mint, proposal and genesis-delegation parts *)
+Definition needed_vkeys_gen (fv fm fp fg : bool) (t : tx_ops) : list key :=
   set_of (ib_required_signers (t_inputs t) ++ ib_required_signers (t_collateral t)
           ++ set_of (t_required_signers t)
-          ++ mint_required_signers (mint_run (t_mint t))
+          ++ mint_required_signers_gen fm (mint_run (t_mint t))
           ++ wd_required_signers (wd_run (t_withdrawals t))
-          ++ certs_required_signers (certs_run (t_certs t))
-          ++ votes_required_signers (votes_run (t_votes t))
-          ++ props_required_signers (props_run (t_proposals t))).
+          ++ certs_required_signers_gen fg (certs_run (t_certs t))
+          ++ votes_required_signers_gen fv (votes_run (t_votes t))
+          ++ props_required_signers_gen fp (props_run (t_proposals t))).
+Definition needed_vkeys : tx_ops -> list key :=
+  needed_vkeys_gen votes_count_plutus_signers mint_counts_declared proposals_count_signers genesis_witness_fixed.
 Definition count_needed_vkeys (t : tx_ops) : N := N.of_nat (length (needed_vkeys t)).
 
 (* get_bootstraps(&tx_builder.inputs) in fake_full_tx; repaired: also the collateral's *)
